@@ -87,6 +87,13 @@ class Gen:
             return L.fn("int", self.num(d + 1))
         raise AssertionError(c)
 
+    def zero_div_mod(self):
+        """mod() whose divisor is zero on some lines (ZeroDivisionError, C05). Only directly right of '=' or as an operand of '==':
+        the exception then unwinds to the match component; beneath another function it would be caught there and cascade (IMPL)"""
+        r = self.r
+        div = L.fn("line_number") if (r.random() < 0.4 or self.no_headers) else L.fn("length", self.text(2, True))
+        return L.fn("mod", self.nonneg(), div)
+
     def nonneg(self):
         r = self.r
         if r.random() < 0.5:
@@ -199,6 +206,8 @@ class Gen:
                 return L.fn(op, self.cmp_num(d + 1), self.cmp_num(d + 1))
             return L.fn(op, self.text(d + 1), self.text(d + 1))
         if c == "eq":
+            if "errors" in self.groups and d == 0 and r.random() < 0.3:
+                return L.eq(self.zero_div_mod(), self.num(1))
             if r.random() < 0.5:
                 return L.eq(self.left_of(self.num(d + 1)), self.num(d + 1))
             return L.eq(self.left_of(self.anyval(d + 1)), self.anyval(d + 1))
@@ -311,7 +320,10 @@ class Gen:
         quals = []
         if not plain and r.random() < 0.25:
             quals.append(r.choice(["k", "key2"]))
-        if kind == "num":
+        if kind == "num" and "errors" in self.groups and r.random() < 0.35:
+            rhs = self.zero_div_mod()
+            kind = "any"        # on the lines where it raises nothing is written
+        elif kind == "num":
             rhs = self.num(1)
         elif kind == "txt":
             rhs = self.text(1, True)
